@@ -53,6 +53,7 @@ def programs(cid: str, rng, limit: int) -> dict[str, str]:
     if "long_pos" in t:
         shapes["nine-positional-plus-keywords"] = call(t["long_pos"] + t["long_kw"])
         shapes["ten-positional"] = call(t["long_pos"] + ["None"])
+        shapes["ten-positional-plus-keywords"] = call(t["long_pos"] + ["None"] + t["long_kw"])
     out = {}
     for name, body in shapes.items():
         out[f"cs_{name.replace('-', '_')}"] = head + body + "\n"
@@ -69,7 +70,7 @@ def programs(cid: str, rng, limit: int) -> dict[str, str]:
             pass
     keys = sorted(good)
     if limit and len(keys) > limit:
-        keep = ["cs_plain", "cs_nested_direct", "cs_nested_in_first_arg", "cs_star_after_kw", "cs_nine_positional_plus_keywords"]
+        keep = ["cs_plain", "cs_nested_direct", "cs_nested_in_first_arg", "cs_star_after_kw", "cs_nine_positional_plus_keywords", "cs_ten_positional_plus_keywords"]
         rest = [k for k in keys if k not in keep]
         rng.shuffle(rest)
         keys = [k for k in keep if k in good] + rest[: max(0, limit - len(keep))]
